@@ -719,7 +719,7 @@ Proof.
     + intros c' H. apply u2n_notify_waiters in H. apply u2n_ext with (s := s) in H; auto.
       destruct (U c' H) as (m' & I). rewrite Em in I. destruct I as [E|I]; [discriminate|eauto].
     + unfold notify_waiters; cbn. rewrite CL, Ed. reflexivity.
-  - split; fr; auto; try lia.
+  - split; fr; auto; try (cbn; lia).
     intros c' H. apply u2n_ext with (s := fold_left close_req (mailbox s) s) in H; auto.
     apply u2n_close in H. destruct H as [H1 H2]. destruct (U c' H1) as (m' & I). exfalso. eapply H2; eauto.
   - split; fr; auto. intros c' H. u2_local H. auto.
@@ -731,7 +731,6 @@ Proof.
       * apply u2n_ext with (s := setc c (with_phase (PU2 snap None)) s) in H; auto.
         destruct H as (x & sn & Gx & Px). rewrite get_setc_other in Gx; auto.
         destruct (U c') as (m' & I); [exists x, sn; auto|]. exists m'. apply in_or_app. auto.
-    + auto.
   - split; fr; auto. intros c' H. u2_local H. auto.
   - split; fr; auto. intros c' H. u2_local H. auto.
   - split; fr; auto. intros c' H. u2_local H. auto.
@@ -748,7 +747,6 @@ Proof.
     + rewrite app_length. cbn. lia.
     + intros c' H. apply u2n_ext with (s := s) in H; auto. destruct (U c' H) as (m' & I).
       exists m'. apply in_or_app. auto.
-    + auto.
   - split; auto.
   - split; fr; auto. intros c' H. apply u2n_requeue in H. auto.
   - split; fr; auto. intros c' H. apply u2n_arrive in H. auto.
@@ -760,3 +758,900 @@ Qed.
 
 Theorem actor_wf K s : reachable K s -> swf K s.
 Proof. induction 1; [apply swf_init|eapply swf_step; eauto]. Qed.
+
+(* ------------------------------------------------------------------ *)
+(* B. No lost wake-up                                                  *)
+
+(* A request whose turn calls notify_one whenever it leaves a non-empty backlog. *)
+Definition notifying (r : req) : bool :=
+  match r with RPost _ | RPull _ _ | RNack _ => true | _ => false end.
+
+(* A consumer that holds a notification: woken by notify_one and not yet run,
+   or it has consumed one (poll returned Ready) and still owes its Pull. *)
+Definition ctoken (p : phase) : bool :=
+  match p with PParked NOne | PU0 true | PU1 _ true => true | _ => false end.
+
+Definition tok (s : state) : Prop :=
+  permit s = true \/
+  (exists c cs, get s c = Some cs /\ ctoken (cphase cs) = true) \/
+  (exists r, In r (mailbox s) /\ notifying r = true).
+
+(* The exact inductive invariant. *)
+Definition tokinv (s : state) : Prop := deleted s = false -> 0 < backlog s -> tok s.
+
+Lemma tok_notify_one s : nwf s -> tok (notify_one s).
+Proof.
+  intros [A B C]. unfold notify_one. destruct (waiters s) as [|w ws] eqn:Ew.
+  - left. reflexivity.
+  - right. left. destruct (proj1 (B w)) as (cs & G & P); [left; auto|].
+    exists w, (wake NOne cs). split.
+    + ss. apply get_setc_same; auto.
+    + unfold wake. rewrite P. reflexivity.
+Qed.
+
+Lemma tok_keep s s' :
+  tok s ->
+  (permit s = true -> permit s' = true) ->
+  (forall c cs, get s c = Some cs -> ctoken (cphase cs) = true ->
+                exists cs', get s' c = Some cs' /\ ctoken (cphase cs') = true) ->
+  (forall r, In r (mailbox s) -> notifying r = true -> In r (mailbox s')) ->
+  tok s'.
+Proof.
+  intros [T|[(c & cs & G & T)|(r & I & T)]] H1 H2 H3.
+  - left. auto.
+  - right. left. destruct (H2 c cs G T) as (cs' & G' & T'). eauto.
+  - right. right. eauto.
+Qed.
+
+Lemma tok_keep_conss s s' :
+  tok s -> (permit s = true -> permit s' = true) -> conss s' = conss s ->
+  (forall r, In r (mailbox s) -> notifying r = true -> In r (mailbox s')) ->
+  tok s'.
+Proof.
+  intros T H1 H2 H3. eapply tok_keep; eauto. intros c cs G Tc. exists cs. split; auto.
+  unfold get in *. rewrite H2. assumption.
+Qed.
+
+(* updating a consumer that holds no token, or keeps it *)
+Lemma ctok_setc s c f :
+  (forall x, get s c = Some x -> ctoken (cphase x) = true -> ctoken (cphase (f x)) = true) ->
+  forall c' cs, get s c' = Some cs -> ctoken (cphase cs) = true ->
+                exists cs', get (setc c f s) c' = Some cs' /\ ctoken (cphase cs') = true.
+Proof.
+  intros Hf c' cs G T. destruct (Nat.eq_dec c' c) as [->|N].
+  - exists (f cs). split; [apply get_setc_same; auto|auto].
+  - exists cs. rewrite get_setc_other; auto.
+Qed.
+
+Lemma tokinv_requeue j s : nwf s -> 0 < backlog (requeue j s) -> tok (requeue j s).
+Proof.
+  intros W. unfold requeue. destruct (Nat.ltb 0 _) eqn:E.
+  - intros _. apply tok_notify_one. eapply nwf_ext; eauto.
+  - cbn. apply Nat.ltb_ge in E. lia.
+Qed.
+
+Lemma tokinv_finish s c cs f :
+  nwf s -> tokinv s -> get s c = Some cs ->
+  owes cs && Nat.ltb 0 (backlog s) && negb (deleted s) = false ->
+  cphase (f cs) <> PParked NNone ->
+  tokinv (finish (cphase cs) c f s).
+Proof.
+  intros W I G NB Hf Hd Hb. fr. specialize (I Hd Hb).
+  assert (L : 0 <? backlog s = true) by (apply Nat.ltb_lt; auto).
+  rewrite L, Hd in NB. cbn in NB. rewrite andb_true_r in NB. unfold owes in NB.
+  assert (NT : cphase cs <> PParked NOne -> ctoken (cphase cs) = false).
+  { destruct (cphase cs) as [[]|? []| | |[]| |]; cbn in *; congruence. }
+  assert (KEEP : cphase cs <> PParked NOne ->
+                 forall c' x, get s c' = Some x -> ctoken (cphase x) = true ->
+                   exists x', get (setc c f s) c' = Some x' /\ ctoken (cphase x') = true).
+  { intros Hn. apply ctok_setc. intros x Gx T. rewrite G in Gx. injection Gx as <-.
+    rewrite NT in T; auto. discriminate. }
+  unfold finish. destruct (cphase cs) as [| | | |[]| |] eqn:P;
+    try (eapply tok_keep; [exact I|auto|apply KEEP; discriminate|auto]).
+  apply tok_notify_one. apply nwf_setc_neutral; auto.
+  intros x Gx. rewrite G in Gx. injection Gx as <-. rewrite P. split; intros Q; [contradiction|discriminate].
+Qed.
+
+Lemma tokinv_step K s l s' :
+  nwf s -> swf K s -> tokinv s -> bad_drop s l = false -> step K s l = Some s' -> tokinv s'.
+Proof.
+  intros W SW I NB H. apply step_sspec in H.
+  destruct H as [c m rest Ex Em Ed|r rest Ex Em Ed Ip|n rest Ex Em Ed|c m rest Ex Em Ed
+                |j rest Ex Em Ed|j rest Ex Em Ed|rest Ex Em Ed|Ed Ex
+                |c cs o G P|c cs snap o G P Ex|c cs snap o G P Ex L|c cs snap G P|c cs snap G P
+                |c cs snap k G P Ek|c cs snap k G P Ek|c cs snap G P Ep|c cs snap G P Ep Ec
+                |c cs snap G P Ep Ec|c cs n G P Hn|c cs Ed G A Hk|r Ip Ex L|j Ex Ed|j Ex Ed|k m
+                |c cs G A|c cs G A Ek].
+  - intros Hd. fr. congruence.
+  - intros Hd. fr. congruence.
+  - intros _ _. apply tok_notify_one. eapply nwf_ext; eauto.
+  - cbv zeta. intros _ Hb. destruct (Nat.ltb 0 _) eqn:E.
+    + apply tok_notify_one. apply nwf_deliver. eapply nwf_ext; eauto.
+    + fr. apply Nat.ltb_ge in E. lia.
+  - intros _ Hb. apply tokinv_requeue; auto. eapply nwf_ext; eauto.
+  - intros Hd Hb. fr. eapply tok_keep_conss; [apply I; auto|auto|auto|].
+    fr. intros r Ir Nr. rewrite Em in Ir. destruct Ir as [<-|Ir]; [discriminate|auto].
+  - intros Hd. fr. discriminate.
+  - intros Hd. fr. congruence.
+  - intros Hd Hb. fr. eapply tok_keep; [apply I; auto|auto| |auto].
+    apply ctok_setc. intros x Gx T. rewrite G in Gx. injection Gx as <-. rewrite P in T.
+    destruct o; cbn in *; congruence.
+  - intros Hd. fr. destruct (sw_exit K s SW Ex). congruence.
+  - intros Hd Hb. fr. destruct (I Hd Hb) as [T|[(c' & x & Gx & T)|(r & Ir & T)]].
+    + left. assumption.
+    + destruct (Nat.eq_dec c' c) as [->|N].
+      * right. right. exists (RPull c (cmax cs)). split; auto. fr. apply in_or_app. right. left. auto.
+      * right. left. exists c', x. fr. rewrite get_setc_other; auto.
+    + right. right. exists r. split; auto. fr. apply in_or_app. auto.
+  - intros Hd Hb. fr. eapply tok_keep; [apply I; auto|auto| |auto].
+    apply ctok_setc. intros x Gx T. rewrite G in Gx. injection Gx as <-. rewrite P in T. discriminate.
+  - intros Hd Hb. fr. eapply tok_keep; [apply I; auto|auto| |auto].
+    apply ctok_setc. intros x Gx T. rewrite G in Gx. injection Gx as <-. rewrite P in T. discriminate.
+  - intros Hd Hb. fr. eapply tok_keep; [apply I; auto|auto| |auto].
+    apply ctok_setc. intros x Gx T. rewrite G in Gx. injection Gx as <-. rewrite P in T. discriminate.
+  - intros Hd Hb. fr. eapply tok_keep; [apply I; auto|auto| |auto].
+    apply ctok_setc. intros x Gx T. rewrite G in Gx. injection Gx as <-. rewrite P in T. discriminate.
+  - intros _ _. right. left. exists c, (with_phase (PU0 true) cs). split; auto. fr.
+    apply get_setc_same; auto.
+  - intros _ _. right. left. exists c, (with_phase (PU0 true) cs). split; auto.
+    apply get_setc_same; auto.
+  - intros Hd Hb. fr. eapply tok_keep; [apply I; auto|auto| |auto]. fr.
+    apply ctok_setc. intros x Gx T. rewrite G in Gx. injection Gx as <-. rewrite P in T. discriminate.
+  - intros _ _. right. left. exists c, (with_phase (PU0 true) cs). split; auto.
+    apply get_setc_same; auto.
+  - intros Hd. fr. congruence.
+  - intros Hd Hb. fr. eapply tok_keep_conss; [apply I; auto|auto|auto|]. fr. intros. apply in_or_app. auto.
+  - assumption.
+  - intros _ Hb. apply tokinv_requeue; auto.
+  - intros Hd Hb. fr. eapply tok_keep; [apply I; auto|auto| |auto].
+    intros c x Gx T. exists x. split; auto. apply get_arrive; auto.
+  - apply tokinv_finish; auto; [|discriminate]. cbn in NB. unfold owing_at in NB. rewrite G in NB. exact NB.
+  - apply tokinv_finish; auto; [|discriminate]. cbn in NB. unfold owing_at in NB. rewrite G in NB. exact NB.
+Qed.
+
+Lemma tokinv_init : tokinv init.
+Proof. intros _ H. cbn in H. lia. Qed.
+
+Lemma reachableR_reachable K s : reachableR K s -> reachable K s.
+Proof. induction 1; [constructor|econstructor; eauto]. Qed.
+
+Lemma reachableR_tokinv K s : reachableR K s -> tokinv s.
+Proof.
+  induction 1 as [|s l s' R IH NB H]; [apply tokinv_init|].
+  apply reachableR_reachable in R.
+  eapply tokinv_step; eauto; [eapply notify_wf|eapply actor_wf]; eauto.
+Qed.
+
+(* The exact invariant: while the subscription exists and the backlog is
+   non-empty, a notification is pending somewhere. *)
+Theorem C06_no_lost_wakeup_exact K s :
+  reachableR K s -> deleted s = false -> 0 < backlog s ->
+  permit s = true \/
+  (exists c cs, get s c = Some cs /\ (cphase cs = PParked NOne \/ owes cs = true)) \/
+  (exists r, In r (mailbox s) /\ notifying r = true).
+Proof.
+  intros R Hd Hb. destruct (reachableR_tokinv K s R Hd Hb) as [T|[(c & cs & G & T)|T]]; auto.
+  right. left. exists c, cs. split; auto. unfold owes.
+  destruct (cphase cs) as [[]|? []| | |[]| |]; cbn in T; try discriminate; auto.
+Qed.
+
+Definition is_parked (p : phase) : bool := match p with PParked _ => true | _ => false end.
+Definition woken (p : phase) : bool :=
+  match p with PParked NOne | PParked NAll => true | _ => false end.
+Definition pulling (p : phase) : bool :=
+  match p with PU0 _ | PU1 _ _ | PU2 _ _ => true | _ => false end.
+
+(* The statement in the form (i)..(v). *)
+Theorem C06_no_lost_wakeup K s :
+  reachableR K s -> deleted s = false -> 0 < backlog s ->
+  (* i *)   permit s = true \/
+  (* ii *)  (exists c cs, get s c = Some cs /\ (woken (cphase cs) = true \/ owes cs = true)) \/
+  (* iii *) (exists c cs, get s c = Some cs /\ pulling (cphase cs) = true) \/
+  (* iv *)  (exists r, In r (mailbox s) /\ notifying r = true) \/
+  (* v *)   (forall c cs, get s c = Some cs -> is_parked (cphase cs) = false).
+Proof.
+  intros R Hd Hb. destruct (C06_no_lost_wakeup_exact K s R Hd Hb) as [T|[(c & cs & G & T)|T]]; auto.
+  right. left. exists c, cs. split; auto. destruct T as [T|T]; auto. left. rewrite T. reflexivity.
+Qed.
+
+(* "backlog > 0, somebody sleeps in the waiters list, nobody else is active and
+   the mailbox holds nothing that notifies" is unreachable. *)
+Definition lost_wakeup (s : state) : Prop :=
+  deleted s = false /\ 0 < backlog s /\ permit s = false /\
+  (exists c cs, get s c = Some cs /\ cphase cs = PParked NNone) /\
+  (forall c cs, get s c = Some cs ->
+     cphase cs = PParked NNone \/ alive (cphase cs) = false \/
+     (exists snap r, cphase cs = PU2 snap (Some r)) \/ (exists snap, cphase cs = PU3 snap)) /\
+  (forall r, In r (mailbox s) -> notifying r = false).
+
+Corollary C06_lost_wakeup_unreachable K s : reachableR K s -> ~ lost_wakeup s.
+Proof.
+  intros R (Hd & Hb & Hp & _ & Hc & Hm).
+  destruct (C06_no_lost_wakeup_exact K s R Hd Hb) as [T|[(c & cs & G & T)|(r & Ir & T)]].
+  - congruence.
+  - unfold owes in T.
+    destruct (Hc c cs G) as [Q|[Q|[(sn & r & Q)|(sn & Q)]]].
+    + rewrite Q in T. destruct T as [T|T]; cbn in T; discriminate.
+    + destruct (cphase cs); cbn in Q, T; try discriminate; destruct T; discriminate.
+    + rewrite Q in T. destruct T as [T|T]; cbn in T; discriminate.
+    + rewrite Q in T. destruct T as [T|T]; cbn in T; discriminate.
+  - rewrite (Hm r Ir) in T. discriminate.
+Qed.
+
+Lemma run_reachable K ls : forall s s', reachable K s -> run K s ls = Some s' -> reachable K s'.
+Proof.
+  induction ls as [|l ls IH]; intros s s' R H; cbn in H.
+  - injection H as <-. assumption.
+  - destruct (step K s l) as [s1|] eqn:E; [|discriminate]. eapply IH; [|exact H].
+    econstructor; eauto.
+Qed.
+
+(* Cancelling a consumer that sleeps in the waiters list is harmless: it only
+   leaves the list. *)
+Theorem C06_cancel_parked_ok K s c cs s' :
+  reachable K s -> tokinv s -> get s c = Some cs -> cphase cs = PParked NNone ->
+  step K s (LCancel c) = Some s' ->
+  tokinv s' /\ waiters s' = remove Nat.eq_dec c (waiters s).
+Proof.
+  intros R I G P H. split.
+  - eapply tokinv_step; eauto; [eapply notify_wf|eapply actor_wf|]; eauto.
+    cbn. unfold owing_at, owes. rewrite G, P. reflexivity.
+  - cbn in H. unfold cancel in H. rewrite G, P in H. cbn in H. injection H as <-. reflexivity.
+Qed.
+
+(* Cancelling a consumer that was woken by notify_one and has not run yet
+   forwards the notification (Drop for Notified): afterwards the permit is set
+   or the next-oldest waiter is woken. *)
+Theorem C06_cancel_woken_forwarded K s c cs s' :
+  reachable K s -> tokinv s -> get s c = Some cs -> cphase cs = PParked NOne ->
+  step K s (LCancel c) = Some s' ->
+  tokinv s' /\
+  ((waiters s = [] /\ permit s' = true) \/
+   (exists w ws cw, waiters s = w :: ws /\ w <> c /\ waiters s' = ws /\
+                    get s' w = Some cw /\ cphase cw = PParked NOne)).
+Proof.
+  intros R I G P H. pose proof (notify_wf K s R) as W. split.
+  - eapply tokinv_step; eauto; [eapply actor_wf|]; eauto.
+    cbn. unfold owing_at, owes. rewrite G, P. reflexivity.
+  - cbn in H. unfold cancel in H. rewrite G, P in H. cbn [alive finish] in H. injection H as <-.
+    unfold notify_one. cbn [waiters setc set_conss]. destruct (waiters s) as [|w ws] eqn:Ew.
+    + left. split; reflexivity.
+    + right. destruct (proj1 (nw_wait s W w)) as (cw & Gw & Pw); [rewrite Ew; left; auto|].
+      assert (N : w <> c) by (intros ->; congruence).
+      exists w, ws, (wake NOne cw). repeat split; auto.
+      * ss. rewrite get_setc_same with (cs := cw); auto. rewrite get_setc_other; auto.
+      * unfold wake. rewrite Pw. reflexivity.
+Qed.
+
+(* C. Quiescence *)
+Lemma quiescent_turn K s : quiescent K s -> turn s = None.
+Proof. intros Q. apply (Q LTurn). reflexivity. Qed.
+Lemma quiescent_cons K s c : quiescent K s -> cons_step K s c = None.
+Proof. intros Q. apply (Q (LCons c)). reflexivity. Qed.
+Lemma quiescent_exit K s : quiescent K s -> actor_exit s = None.
+Proof. intros Q. apply (Q LExit). reflexivity. Qed.
+Lemma quiescent_delexit K s c : quiescent K s -> del_exit s c = None.
+Proof. intros Q. apply (Q (LDelExit c)). reflexivity. Qed.
+
+Theorem C06_quiescent K s :
+  1 <= K -> reachableR K s -> quiescent K s -> deleted s = false -> 0 < backlog s ->
+  permit s = true /\ waiters s = [] /\
+  forall c cs, get s c = Some cs -> is_parked (cphase cs) = false.
+Proof.
+  intros HK R Q Hd Hb. pose proof (reachableR_reachable K s R) as R'.
+  pose proof (notify_wf K s R') as W. pose proof (actor_wf K s R') as SW.
+  assert (Ex : exited s = false).
+  { destruct (exited s) eqn:E; auto. destruct (sw_exit K s SW E). congruence. }
+  assert (Em : mailbox s = []).
+  { pose proof (quiescent_turn K s Q) as T. unfold turn in T. rewrite Ex in T.
+    destruct (mailbox s); [reflexivity|discriminate]. }
+  assert (Hp : permit s = true).
+  { destruct (reachableR_tokinv K s R Hd Hb) as [T|[(c & cs & G & T)|(r & Ir & _)]]; auto.
+    - exfalso. pose proof (quiescent_cons K s c Q) as C. unfold cons_step in C. rewrite G in C.
+      destruct (cphase cs) as [[]|sn []| | |[]| |]; cbn in T; try discriminate.
+      rewrite Ex, Em in C. cbn [length] in C. destruct (Nat.ltb_spec 0 K); [discriminate|lia].
+    - rewrite Em in Ir. destruct Ir. }
+  pose proof (nw_permit s W Hp) as Ew. repeat split; auto.
+  intros c cs G. destruct (cphase cs) as [| | | |n| |] eqn:P; auto. exfalso.
+  destruct n.
+  - assert (In c (waiters s)) as Hin by (apply (nw_wait s W); exists cs; auto).
+    rewrite Ew in Hin. destruct Hin.
+  - pose proof (quiescent_cons K s c Q) as C. unfold cons_step in C. rewrite G, P in C. discriminate.
+  - pose proof (quiescent_cons K s c Q) as C. unfold cons_step in C. rewrite G, P in C. discriminate.
+Qed.
+
+(* ------------------------------------------------------------------ *)
+(* Per-consumer invariants: a generic preservation lemma               *)
+
+Definition allc (P : nat -> cons -> Prop) (s : state) : Prop :=
+  forall c cs, get s c = Some cs -> P c cs.
+
+Section AllC.
+  Variable P : nat -> cons -> Prop.
+  Variable l : label.
+  Hypothesis H_live : forall c cs p,
+    P c cs -> alive (cphase cs) = true -> alive p = true -> P c (with_phase p cs).
+  Hypothesis H_got : forall c cs k, P c cs -> P c (add_got k cs).
+  Hypothesis H_closed : forall c cs,
+    P c cs -> alive (cphase cs) = true -> P c (with_phase (PDone (closed_outcome (ckind cs))) cs).
+  Hypothesis H_msgs : forall c cs k,
+    P c cs -> alive (cphase cs) = true -> ckind cs = Unary ->
+    P c (with_phase (PDone (OMessages (S k))) cs).
+  Hypothesis H_nf : forall c cs,
+    P c cs -> alive (cphase cs) = true -> P c (with_phase (PDone ONotFound) cs).
+  Hypothesis H_gone : forall c cs,
+    P c cs -> alive (cphase cs) = true -> P c (with_phase PGone cs).
+  Hypothesis H_timeout : forall c cs,
+    l = LTimeout c -> P c cs -> alive (cphase cs) = true -> ckind cs = Unary ->
+    P c (with_timed (with_phase (PDone OEmpty) cs)).
+  Hypothesis H_new : forall c k m, P c (new_cons k m).
+
+  Lemma allc_setc s c f :
+    allc P s -> (forall cs, get s c = Some cs -> P c cs -> P c (f cs)) -> allc P (setc c f s).
+  Proof.
+    intros A Hf c' cs' G. apply get_setc_inv in G. destruct G as [(-> & x & Gx & ->)|(N & G)]; auto.
+  Qed.
+
+  Lemma allc_ext s s' : conss s' = conss s -> allc P s -> allc P s'.
+  Proof. intros E A c cs G. apply A. unfold get in *. rewrite <- E. assumption. Qed.
+
+  Lemma P_wake c cs n : P c cs -> P c (wake n cs).
+  Proof.
+    intros Hc. unfold wake. destruct (cphase cs) as [| | | |[]| |] eqn:E; auto.
+    apply H_live; auto. rewrite E. reflexivity.
+  Qed.
+
+  Lemma P_deliver c cs r : P c cs -> P c (deliver_f r cs).
+  Proof.
+    intros Hc. unfold deliver_f. destruct (cphase cs) as [| |sn [|]| | | |] eqn:E; auto.
+    apply H_live; auto. rewrite E. reflexivity.
+  Qed.
+
+  Lemma allc_notify_one s : allc P s -> allc P (notify_one s).
+  Proof.
+    intros A. unfold notify_one. destruct (waiters s) as [|w ws].
+    - eapply allc_ext; [|eassumption]; reflexivity.
+    - eapply allc_ext with (s := setc w (wake NOne) s); [reflexivity|].
+      apply allc_setc; auto. intros cs _. apply P_wake.
+  Qed.
+
+  Lemma allc_notify_waiters s : allc P s -> allc P (notify_waiters s).
+  Proof.
+    intros A c cs G. rewrite get_notify_waiters in G.
+    destruct (get s c) as [x|] eqn:Gx; [|discriminate]. cbn in G. injection G as <-.
+    destruct (in_dec Nat.eq_dec c (waiters s)); auto. apply P_wake. auto.
+  Qed.
+
+  Lemma allc_finish old s c f :
+    allc P s -> (forall cs, get s c = Some cs -> P c cs -> P c (f cs)) -> allc P (finish old c f s).
+  Proof.
+    intros A Hf. pose proof (allc_setc s c f A Hf) as A1. unfold finish.
+    destruct old as [| | | |[]| |]; auto.
+    apply allc_notify_one. assumption.
+  Qed.
+
+  Lemma allc_deliver s c r : allc P s -> allc P (deliver c r s).
+  Proof. intros A. apply allc_setc; auto. intros cs _. apply P_deliver. Qed.
+
+  Lemma allc_close rs : forall s, allc P s -> allc P (fold_left close_req rs s).
+  Proof.
+    induction rs as [|r rs IH]; intros s A; cbn [fold_left]; auto. apply IH.
+    destruct r; cbn [close_req]; auto. apply allc_deliver. assumption.
+  Qed.
+
+  Lemma allc_requeue j s : allc P s -> allc P (requeue j s).
+  Proof.
+    intros A. unfold requeue. destruct (Nat.ltb 0 _).
+    - apply allc_notify_one. eapply allc_ext; [|eassumption]; reflexivity.
+    - eapply allc_ext; [|eassumption]; reflexivity.
+  Qed.
+
+  Lemma allc_step K s s' : step K s l = Some s' -> allc P s -> allc P s'.
+  Proof.
+    intros H A. apply step_sspec in H.
+    destruct H as [c m rest Ex Em Ed|r rest Ex Em Ed Ip|n rest Ex Em Ed|c m rest Ex Em Ed
+                  |j rest Ex Em Ed|j rest Ex Em Ed|rest Ex Em Ed|Ed Ex
+                  |c cs o G Ph|c cs snap o G Ph Ex|c cs snap o G Ph Ex L|c cs snap G Ph|c cs snap G Ph
+                  |c cs snap k G Ph Ek|c cs snap k G Ph Ek|c cs snap G Ph Ep|c cs snap G Ph Ep Ec
+                  |c cs snap G Ph Ep Ec|c cs n G Ph Hn|c cs Ed G Al Hk|r Ip Ex L|j Ex Ed|j Ex Ed|k m
+                  |c cs G Al|c cs G Al Ek].
+    - apply allc_deliver. eapply allc_ext; [|eassumption]; reflexivity.
+    - eapply allc_ext; [|eassumption]; reflexivity.
+    - apply allc_notify_one. eapply allc_ext; [|eassumption]; reflexivity.
+    - cbv zeta.
+      assert (allc P (deliver c (RMsgs (pull_count (backlog s) m))
+         (set_leased (leased s + pull_count (backlog s) m)
+            (set_backlog (backlog s - pull_count (backlog s) m) (set_mailbox rest s))))).
+      { apply allc_deliver. eapply allc_ext; [|eassumption]; reflexivity. }
+      destruct (Nat.ltb 0 _); auto. apply allc_notify_one; auto.
+    - apply allc_requeue. eapply allc_ext; [|eassumption]; reflexivity.
+    - eapply allc_ext; [|eassumption]; reflexivity.
+    - apply allc_notify_waiters. eapply allc_ext; [|eassumption]; reflexivity.
+    - eapply allc_ext with (s := fold_left close_req (mailbox s) s); [reflexivity|].
+      apply allc_close. assumption.
+    - apply allc_setc; auto. intros x Gx Px. rewrite G in Gx. injection Gx as <-.
+      apply H_live; auto. rewrite Ph. reflexivity.
+    - apply allc_setc; auto. intros x Gx Px. rewrite G in Gx. injection Gx as <-.
+      apply H_closed; auto. rewrite Ph. reflexivity.
+    - eapply allc_ext with (s := setc c (with_phase (PU2 snap None)) s); [reflexivity|].
+      apply allc_setc; auto. intros x Gx Px. rewrite G in Gx. injection Gx as <-.
+      apply H_live; auto. rewrite Ph. reflexivity.
+    - apply allc_setc; auto. intros x Gx Px. rewrite G in Gx. injection Gx as <-.
+      apply H_closed; auto. rewrite Ph. reflexivity.
+    - apply allc_setc; auto. intros x Gx Px. rewrite G in Gx. injection Gx as <-.
+      apply H_live; auto. rewrite Ph. reflexivity.
+    - apply allc_setc; auto. intros x Gx Px. rewrite G in Gx. injection Gx as <-.
+      apply H_got. apply H_msgs; auto. rewrite Ph. reflexivity.
+    - apply allc_setc; auto. intros x Gx Px. rewrite G in Gx. injection Gx as <-.
+      apply H_got. apply H_live; auto. rewrite Ph. reflexivity.
+    - eapply allc_ext with (s := setc c (with_phase (PU0 true)) s); [reflexivity|].
+      apply allc_setc; auto. intros x Gx Px. rewrite G in Gx. injection Gx as <-.
+      apply H_live; auto. rewrite Ph. reflexivity.
+    - apply allc_setc; auto. intros x Gx Px. rewrite G in Gx. injection Gx as <-.
+      apply H_live; auto. rewrite Ph. reflexivity.
+    - eapply allc_ext with (s := setc c (with_phase (PParked NNone)) s); [reflexivity|].
+      apply allc_setc; auto. intros x Gx Px. rewrite G in Gx. injection Gx as <-.
+      apply H_live; auto. rewrite Ph. reflexivity.
+    - apply allc_setc; auto. intros x Gx Px. rewrite G in Gx. injection Gx as <-.
+      apply H_live; auto. rewrite Ph. reflexivity.
+    - apply allc_finish; auto. intros x Gx Px. rewrite G in Gx. injection Gx as <-. auto.
+    - eapply allc_ext; [|eassumption]; reflexivity.
+    - assumption.
+    - apply allc_requeue. assumption.
+    - intros c cs G. apply get_arrive_inv in G. destruct G as [G|(_ & -> & _)]; auto.
+    - apply allc_finish; auto. intros x Gx Px. rewrite G in Gx. injection Gx as <-. auto.
+    - apply allc_finish; auto. intros x Gx Px. rewrite G in Gx. injection Gx as <-. auto.
+  Qed.
+End AllC.
+
+Lemma allc_init P : allc P init.
+Proof. intros c cs G. unfold get in G. cbn in G. destruct c; discriminate. Qed.
+
+(* ------------------------------------------------------------------ *)
+(* E. Outcomes: the empty rule                                         *)
+
+Definition cinv (c : nat) (cs : cons) : Prop :=
+  match cphase cs with
+  | PDone (OMessages k) => ckind cs = Unary /\ 0 < k
+  | PDone OEmpty => ckind cs = Unary /\ ctimed cs = true
+  | PDone OError => ckind cs = Unary
+  | _ => True
+  end /\ (ctimed cs = true -> cphase cs = PDone OEmpty).
+
+Lemma cinv_step K s l s' : step K s l = Some s' -> allc cinv s -> allc cinv s'.
+Proof.
+  apply allc_step; unfold cinv.
+  - intros c cs p [A B] Al Ap. cbn. split.
+    + destruct p as [| | | | |[]|]; auto; discriminate.
+    + intros T. rewrite (B T) in Al. discriminate.
+  - intros c cs k H. exact H.
+  - intros c cs [A B] Al. cbn. split.
+    + destruct (ckind cs); cbn; auto.
+    + intros T. rewrite (B T) in Al. discriminate.
+  - intros c cs k [A B] Al Ek. cbn. split; [split; [auto|lia]|].
+    intros T. rewrite (B T) in Al. discriminate.
+  - intros c cs [A B] Al. cbn. split; auto. intros T. rewrite (B T) in Al. discriminate.
+  - intros c cs [A B] Al. cbn. split; auto. intros T. rewrite (B T) in Al. discriminate.
+  - intros c cs _ [A B] Al Ek. cbn. auto.
+  - intros c k m. cbn. split; auto. discriminate.
+Qed.
+
+Theorem outcomes_wf K s : reachable K s -> allc cinv s.
+Proof. induction 1; [apply allc_init|eapply cinv_step; eauto]. Qed.
+
+Lemma run_snoc K ls : forall s l,
+  run K s (ls ++ [l]) = match run K s ls with Some s1 => step K s1 l | None => None end.
+Proof.
+  induction ls as [|x ls IH]; intros s l; cbn.
+  - destruct (step K s l); reflexivity.
+  - destruct (step K s x); auto.
+Qed.
+
+Definition timed_hist (ls : list label) (c : nat) (cs : cons) : Prop :=
+  ctimed cs = true -> In (LTimeout c) ls.
+
+Lemma timed_hist_run K ls : forall s, run K init ls = Some s -> allc (timed_hist ls) s.
+Proof.
+  induction ls as [|l ls IH] using rev_ind; intros s H.
+  - cbn in H. injection H as <-. apply allc_init.
+  - rewrite run_snoc in H. destruct (run K init ls) as [s1|] eqn:E; [|discriminate].
+    specialize (IH s1 eq_refl).
+    assert (A : allc (timed_hist (ls ++ [l])) s1).
+    { intros c cs G T. apply in_or_app. left. apply (IH c cs G T). }
+    revert A. apply (allc_step (timed_hist (ls ++ [l])) l) with (K := K); auto; unfold timed_hist; cbn; auto.
+    + intros c cs -> _ _ _ _. apply in_or_app. right. left. reflexivity.
+    + intros; discriminate.
+Qed.
+
+(* A blocking Pull answers "no messages" only because its 300 s timer fired. *)
+Theorem C15_empty_rule K ls s c cs :
+  run K init ls = Some s -> get s c = Some cs -> cphase cs = PDone OEmpty ->
+  ckind cs = Unary /\ In (LTimeout c) ls.
+Proof.
+  intros H G Ph.
+  assert (R : reachable K s) by (eapply run_reachable; eauto; constructor).
+  destruct (outcomes_wf K s R c cs G) as [A B]. rewrite Ph in A. destruct A as [A1 A2].
+  split; auto. apply (timed_hist_run K ls s H c cs G A2).
+Qed.
+
+(* Streams never produce an empty answer or an error other than NotFound, and
+   a Messages answer is never empty. *)
+Theorem C15_outcomes K s c cs o :
+  reachable K s -> get s c = Some cs -> cphase cs = PDone o ->
+  match o with
+  | OMessages k => ckind cs = Unary /\ 0 < k
+  | OEmpty => ckind cs = Unary /\ ctimed cs = true
+  | OError => ckind cs = Unary
+  | ONotFound => True
+  end.
+Proof.
+  intros R G Ph. destruct (outcomes_wf K s R c cs G) as [A _]. rewrite Ph in A.
+  destruct o; auto.
+Qed.
+
+(* An empty reply makes the consumer go on to poll its signal; it does not finish. *)
+Theorem C15_empty_reply_continues K s c cs snap s' :
+  get s c = Some cs -> cphase cs = PU2 snap (Some (RMsgs 0)) ->
+  step K s (LCons c) = Some s' ->
+  get s' c = Some (with_phase (PU3 snap) cs).
+Proof.
+  intros G Ph H. cbn in H. unfold cons_step in H. rewrite G, Ph in H. injection H as <-.
+  apply get_setc_same. assumption.
+Qed.
+
+(* ------------------------------------------------------------------ *)
+(* D. Release on deletion                                              *)
+
+Definition released (cs : cons) : Prop :=
+  cphase cs = PGone \/
+  exists o, cphase cs = PDone o /\
+    match ckind cs with
+    | Stream => o = ONotFound
+    | Unary => o = ONotFound \/ o = OError \/ (exists k, 0 < k /\ o = OMessages k) \/
+               (o = OEmpty /\ ctimed cs = true)
+    end.
+
+Lemma step_deleted K s l s' : step K s l = Some s' -> deleted s = true -> deleted s' = true.
+Proof.
+  intros H D. apply step_sspec in H. destruct H; try (cbv zeta; destruct (Nat.ltb 0 _)); fr; auto; congruence.
+Qed.
+
+Theorem C12_release K s :
+  reachable K s -> deleted s = true -> quiescent K s ->
+  exited s = true /\ mailbox s = [] /\ waiters s = [] /\
+  forall c cs, get s c = Some cs -> released cs.
+Proof.
+  intros R Hd Q. pose proof (notify_wf K s R) as W. pose proof (actor_wf K s R) as SW.
+  pose proof (outcomes_wf K s R) as O.
+  assert (Ex : exited s = true).
+  { pose proof (quiescent_exit K s Q) as E. unfold actor_exit in E. rewrite Hd in E.
+    destruct (exited s); [reflexivity|discriminate]. }
+  destruct (sw_exit K s SW Ex) as [_ Em].
+  assert (Rel : forall c cs, get s c = Some cs -> released cs).
+  { intros c cs G. pose proof (quiescent_cons K s c Q) as C. pose proof (quiescent_delexit K s c Q) as D.
+    unfold cons_step in C. unfold del_exit in D. rewrite G in C. rewrite Hd, G in D. cbn [negb] in D.
+    destruct (cphase cs) as [o|sn o|sn [[[|k]|]|]|sn|n|o|] eqn:Ph; try discriminate.
+    - rewrite Ex in C. discriminate.
+    - destruct (ckind cs); discriminate.
+    - exfalso. destruct (sw_u2 K s SW c) as (m & I); [exists cs, sn; auto|]. rewrite Em in I. destruct I.
+    - destruct (poll_init (permit s) (calls s) sn); discriminate.
+    - destruct n; try discriminate. destruct (ckind cs); discriminate.
+    - right. exists o. split; auto. destruct (O c cs G) as [A B]. rewrite Ph in A.
+      destruct (ckind cs) eqn:Ek.
+      + destruct o as [k| | |]; auto.
+        * right. right. left. exists k. destruct A. auto.
+        * right. right. right. destruct A. auto.
+      + destruct o as [k| | |]; auto; try (destruct A; discriminate); discriminate.
+    - left. exact Ph. }
+  repeat split; auto.
+  destruct (waiters s) as [|w ws] eqn:Ew; auto. exfalso.
+  destruct (proj1 (nw_wait s W w)) as (cs & G & Ph); [rewrite Ew; left; auto|].
+  destruct (Rel w cs G) as [Q1|(o & Q1 & _)]; congruence.
+Qed.
+
+(* No hang: potential of consumer c in a deleted subscription *)
+
+Fixpoint sumf (g : cons -> nat) (l : list cons) : nat :=
+  match l with [] => 0 | x :: t => g x + sumf g t end.
+
+Lemma sumf_upd g l : forall c f cs,
+  nth_error l c = Some cs -> sumf g (upd l c f) + g cs = sumf g l + g (f cs).
+Proof.
+  induction l as [|x t IH]; intros [|c] f cs E; cbn in *; try discriminate.
+  - injection E as ->. lia.
+  - specialize (IH c f cs E). lia.
+Qed.
+
+Lemma sumf_upd_none g l : forall c f, nth_error l c = None -> sumf g (upd l c f) = sumf g l.
+Proof.
+  induction l as [|x t IH]; intros [|c] f E; cbn in *; try discriminate; auto.
+Qed.
+
+Lemma sumf_app g l1 l2 : sumf g (l1 ++ l2) = sumf g l1 + sumf g l2.
+Proof. induction l1; cbn; lia. Qed.
+
+Definition b2n (b : bool) : nat := if b then 1 else 0.
+
+Definition rank (p : phase) : nat :=
+  match p with
+  | PU0 _ => 6 | PU1 _ _ => 5 | PU2 _ _ => 3 | PU3 _ => 2 | PParked _ => 1
+  | PDone _ | PGone => 0
+  end.
+
+Definition stale (calls snap : nat) : nat := if Nat.eqb snap calls then 0 else 1.
+
+(* a wake-up of its own that c will consume without touching the shared tokens *)
+Definition soa (calls : nat) (p : phase) : nat :=
+  match p with
+  | PParked NAll => 1
+  | PU1 sn _ | PU2 sn _ | PU3 sn => stale calls sn
+  | _ => 0
+  end.
+
+Definition isOne (cs : cons) : nat :=
+  match cphase cs with PParked NOne => 1 | _ => 0 end.
+
+Definition own (calls : nat) (p : phase) : nat := rank p + 6 * soa calls p.
+
+Definition ownc (s : state) (c : nat) : nat :=
+  match get s c with Some cs => own (calls s) (cphase cs) | None => 6 end.
+
+Definition ntk (s : state) : nat := b2n (permit s) + sumf isOne (conss s).
+
+(* The bound: own steps consumer c can still take once the subscription is deleted. *)
+Definition hang_bound (s : state) (c : nat) : nat := ownc s c + 6 * ntk s.
+
+Lemma ntk_setc s c f cs :
+  get s c = Some cs -> ntk (setc c f s) + isOne cs = ntk s + isOne (f cs).
+Proof.
+  intros G. unfold ntk. cbn. pose proof (sumf_upd isOne (conss s) c f cs G). lia.
+Qed.
+
+Lemma isOne_wake_le cs : isOne (wake NOne cs) <= isOne cs + 1.
+Proof. unfold wake, isOne. destruct (cphase cs) as [| | | |[]| |] eqn:E; cbn; rewrite ?E; lia. Qed.
+
+Lemma ntk_notify_one s : ntk (notify_one s) <= ntk s + 1.
+Proof.
+  unfold notify_one. destruct (waiters s) as [|w ws].
+  - unfold ntk. cbn. destruct (permit s); cbn; lia.
+  - change (ntk (set_waiters ws (setc w (wake NOne) s))) with (ntk (setc w (wake NOne) s)).
+    destruct (get s w) as [cs|] eqn:G.
+    + pose proof (ntk_setc s w (wake NOne) cs G). pose proof (isOne_wake_le cs). lia.
+    + unfold ntk. cbn. rewrite sumf_upd_none; auto. lia.
+Qed.
+
+Lemma own_wake calls n cs : n <> NAll -> own calls (cphase (wake n cs)) = own calls (cphase cs).
+Proof.
+  intros Hn. unfold wake. destruct (cphase cs) as [| | | |[]| |] eqn:E; cbn; rewrite ?E; auto.
+  destruct n; auto. congruence.
+Qed.
+
+Lemma own_deliver calls r cs : own calls (cphase (deliver_f r cs)) = own calls (cphase cs).
+Proof.
+  unfold deliver_f. destruct (cphase cs) as [| |sn [|]| | | |] eqn:E; cbn; rewrite ?E; auto.
+Qed.
+
+Lemma ownc_setc_other s c0 f c : c <> c0 -> ownc (setc c0 f s) c = ownc s c.
+Proof. intros N. unfold ownc. rewrite get_setc_other; auto. Qed.
+
+Lemma ownc_setc_same s c f cs :
+  get s c = Some cs -> ownc (setc c f s) c = own (calls s) (cphase (f cs)).
+Proof. intros G. unfold ownc. rewrite (get_setc_same s c f cs G). reflexivity. Qed.
+
+Lemma ownc_setc_inv s c0 f c :
+  (forall x, own (calls s) (cphase (f x)) = own (calls s) (cphase x)) ->
+  ownc (setc c0 f s) c = ownc s c.
+Proof.
+  intros Hf. destruct (Nat.eq_dec c c0) as [->|N]; [|apply ownc_setc_other; auto].
+  unfold ownc. destruct (get s c0) as [cs|] eqn:G.
+  - rewrite (get_setc_same s c0 f cs G). apply Hf.
+  - unfold get, setc in *; cbn. rewrite nth_upd_same, G. reflexivity.
+Qed.
+
+Lemma ownc_ext s s' c : conss s' = conss s -> calls s' = calls s -> ownc s' c = ownc s c.
+Proof. unfold ownc, get. intros -> ->. reflexivity. Qed.
+
+Lemma ownc_notify_one s c : ownc (notify_one s) c = ownc s c.
+Proof.
+  unfold notify_one. destruct (waiters s) as [|w ws].
+  - apply ownc_ext; reflexivity.
+  - rewrite ownc_ext with (s := setc w (wake NOne) s); try reflexivity.
+    apply ownc_setc_inv. intros x. apply own_wake. discriminate.
+Qed.
+
+Lemma ownc_deliver s c0 r c : ownc (deliver c0 r s) c = ownc s c.
+Proof. apply ownc_setc_inv. intros x. apply own_deliver. Qed.
+
+Lemma ownc_close l : forall s c, ownc (fold_left close_req l s) c = ownc s c.
+Proof.
+  induction l as [|r l IH]; intros s c; cbn [fold_left]; auto. rewrite IH.
+  destruct r; cbn [close_req]; auto. apply ownc_deliver.
+Qed.
+
+Lemma ntk_ext s s' : conss s' = conss s -> permit s' = permit s -> ntk s' = ntk s.
+Proof. unfold ntk. intros -> ->. reflexivity. Qed.
+
+Lemma isOne_deliver r cs : isOne (deliver_f r cs) = isOne cs.
+Proof.
+  unfold deliver_f, isOne. destruct (cphase cs) as [| |sn [|]| | | |] eqn:E; cbn; rewrite ?E; auto.
+Qed.
+
+Lemma ntk_setc_inv s c f : (forall x, isOne (f x) = isOne x) -> ntk (setc c f s) = ntk s.
+Proof.
+  intros Hf. destruct (get s c) as [cs|] eqn:G.
+  - pose proof (ntk_setc s c f cs G). rewrite Hf in H. lia.
+  - unfold ntk. cbn. rewrite sumf_upd_none; auto.
+Qed.
+
+Lemma ntk_deliver s c r : ntk (deliver c r s) = ntk s.
+Proof. apply ntk_setc_inv. intros x. apply isOne_deliver. Qed.
+
+Lemma ntk_close l : forall s, ntk (fold_left close_req l s) = ntk s.
+Proof.
+  induction l as [|r l IH]; intros s; cbn [fold_left]; auto. rewrite IH.
+  destruct r; cbn [close_req]; auto. apply ntk_deliver.
+Qed.
+
+Definition own_step (l : label) (c : nat) : nat :=
+  match l with
+  | LCons c' | LDelExit c' | LCancel c' | LTimeout c' => if Nat.eqb c' c then 1 else 0
+  | _ => 0
+  end.
+
+(* local move of consumer c0: c0's own potential drops by at least d + 6 * (tokens it gains) *)
+Lemma hang_local s c0 cs f c (d : nat) :
+  get s c0 = Some cs ->
+  isOne (f cs) <= isOne cs ->
+  own (calls s) (cphase (f cs)) + 6 * isOne (f cs) + d <= own (calls s) (cphase cs) + 6 * isOne cs ->
+  hang_bound (setc c0 f s) c + (if Nat.eqb c0 c then d else 0) <= hang_bound s c.
+Proof.
+  intros G H1 Hd. unfold hang_bound. pose proof (ntk_setc s c0 f cs G) as N.
+  destruct (Nat.eqb_spec c0 c) as [->|Ne].
+  - rewrite (ownc_setc_same s c f cs G). unfold ownc. rewrite G. lia.
+  - rewrite ownc_setc_other; auto. lia.
+Qed.
+
+Lemma hang_bound_ext s s' c :
+  conss s' = conss s -> calls s' = calls s -> permit s' = permit s -> hang_bound s' c = hang_bound s c.
+Proof.
+  intros E1 E2 E3. unfold hang_bound. rewrite (ownc_ext s s' c E1 E2), (ntk_ext s s' E1 E3). reflexivity.
+Qed.
+
+Lemma rank_alive p : alive p = true -> 1 <= rank p.
+Proof. destruct p; cbn; intros; try discriminate; lia. Qed.
+
+Lemma hang_finish s c0 cs f c :
+  get s c0 = Some cs -> alive (cphase cs) = true ->
+  alive (cphase (f cs)) = false ->
+  hang_bound (finish (cphase cs) c0 f s) c + (if Nat.eqb c0 c then 1 else 0) <= hang_bound s c.
+Proof.
+  intros G Al Hf.
+  assert (O0 : own (calls s) (cphase (f cs)) = 0) by (destruct (cphase (f cs)); cbn in *; auto; discriminate).
+  assert (I0 : isOne (f cs) = 0) by (unfold isOne; destruct (cphase (f cs)); cbn in *; auto; discriminate).
+  pose proof (rank_alive _ Al) as Rk.
+  assert (L : hang_bound (setc c0 f s) c + (if Nat.eqb c0 c then 1 else 0) <= hang_bound s c).
+  { apply hang_local with (cs := cs); auto; [lia|]. rewrite O0, I0. unfold own. lia. }
+  unfold finish. destruct (cphase cs) as [| | | |[]| |] eqn:Ph; auto.
+  (* Waiting(one): forwarded *)
+  unfold hang_bound. rewrite ownc_notify_one.
+  pose proof (ntk_notify_one (setc c0 f s)) as N1. pose proof (ntk_setc s c0 f cs G) as N2.
+  rewrite I0 in N2. unfold isOne in N2. rewrite Ph in N2.
+  destruct (Nat.eqb_spec c0 c) as [->|Ne].
+  - rewrite (ownc_setc_same s c f cs G), O0. unfold ownc. rewrite G, Ph. cbn. lia.
+  - rewrite ownc_setc_other; auto. lia.
+Qed.
+
+Ltac hloc G Ph :=
+  eapply Nat.le_trans; [|eapply hang_local with (d := 1); [exact G| |]];
+  [cbn [own_step]; apply Nat.le_refl
+  |unfold isOne; cbn; lia
+  |unfold isOne, own; cbn; rewrite ?Ph; cbn; unfold stale; rewrite ?Nat.eqb_refl; try lia].
+
+(* Once the subscription is deleted no step raises the potential of consumer c,
+   and every step of c itself lowers it. *)
+Lemma hang_step K s l s' c :
+  deleted s = true -> step K s l = Some s' ->
+  hang_bound s' c + own_step l c <= hang_bound s c.
+Proof.
+  intros Hd H. apply step_sspec in H.
+  destruct H as [c0 m rest Ex Em Ed|r rest Ex Em Ed Ip|n rest Ex Em Ed|c0 m rest Ex Em Ed
+                |j rest Ex Em Ed|j rest Ex Em Ed|rest Ex Em Ed|Ed Ex
+                |c0 cs o G Ph|c0 cs snap o G Ph Ex|c0 cs snap o G Ph Ex L|c0 cs snap G Ph|c0 cs snap G Ph
+                |c0 cs snap k G Ph Ek|c0 cs snap k G Ph Ek|c0 cs snap G Ph Ep|c0 cs snap G Ph Ep Ec
+                |c0 cs snap G Ph Ep Ec|c0 cs n G Ph Hn|c0 cs Ed G Al Hk|r Ip Ex L|j Ex Ed|j Ex Ed|k m
+                |c0 cs G Al|c0 cs G Al Ek]; try congruence; cbn [own_step].
+  - unfold hang_bound. rewrite ownc_deliver, ntk_deliver.
+    change (ownc s c + 6 * ntk s + 0 <= ownc s c + 6 * ntk s). lia.
+  - rewrite (hang_bound_ext s); auto. lia.
+  - rewrite (hang_bound_ext (fold_left close_req (mailbox s) s)); try reflexivity.
+    unfold hang_bound. rewrite ownc_close, ntk_close. lia.
+  - hloc G Ph.
+  - hloc G Ph.
+  - rewrite (hang_bound_ext (setc c0 (with_phase (PU2 snap None)) s)); try reflexivity. hloc G Ph.
+  - hloc G Ph.
+  - hloc G Ph.
+  - hloc G Ph.
+  - hloc G Ph.
+  - (* poll takes the permit *)
+    unfold hang_bound. pose proof (ntk_setc s c0 (with_phase (PU0 true)) cs G) as N.
+    unfold isOne in N. cbn in N. rewrite Ph in N.
+    assert (E : ntk (set_permit false (setc c0 (with_phase (PU0 true)) s)) + 1
+                = ntk (setc c0 (with_phase (PU0 true)) s)).
+    { unfold ntk. cbn. rewrite Ep. cbn. lia. }
+    rewrite ownc_ext with (s := setc c0 (with_phase (PU0 true)) s); try reflexivity.
+    destruct (Nat.eqb_spec c0 c) as [->|Ne].
+    + rewrite (ownc_setc_same s c _ cs G). unfold ownc. rewrite G, Ph. unfold own.
+      cbn [rank soa cphase with_phase]. lia.
+    + rewrite ownc_setc_other; auto. lia.
+  - hloc G Ph. destruct (Nat.eqb_spec snap (calls s)); [contradiction|lia].
+  - rewrite (hang_bound_ext (setc c0 (with_phase (PParked NNone)) s)); try reflexivity. hloc G Ph.
+  - hloc G Ph. destruct n; try contradiction; lia.
+  - apply hang_finish; auto.
+  - rewrite (hang_bound_ext s); auto. lia.
+  - lia.
+  - unfold hang_bound, ntk, ownc. cbn. rewrite sumf_app. cbn.
+    assert (E : match get (set_conss (conss s ++ [new_cons k m]) s) c with
+                | Some cs => own (calls s) (cphase cs) | None => 6 end
+                <= match get s c with Some cs => own (calls s) (cphase cs) | None => 6 end).
+    { destruct (get (set_conss (conss s ++ [new_cons k m]) s) c) as [x|] eqn:G.
+      - apply get_arrive_inv in G. destruct G as [G|(_ & -> & G)]; rewrite G; cbn; lia.
+      - destruct (get s c) as [y|] eqn:Gy; [|lia].
+        rewrite (get_arrive s _ c y Gy) in G. discriminate. }
+    lia.
+  - apply hang_finish; auto.
+  - apply hang_finish; auto.
+Qed.
+
+Fixpoint count_own (c : nat) (ls : list label) : nat :=
+  match ls with [] => 0 | l :: t => own_step l c + count_own c t end.
+
+(* Along ANY run (environment steps included, whatever select! picks) from a
+   state of a deleted subscription, consumer c takes at most [hang_bound s c]
+   steps of its own. *)
+Theorem C12_no_hang K ls : forall s s' c,
+  deleted s = true -> run K s ls = Some s' ->
+  hang_bound s' c + count_own c ls <= hang_bound s c.
+Proof.
+  induction ls as [|l ls IH]; intros s s' c Hd H; cbn in H.
+  - injection H as <-. cbn. lia.
+  - destruct (step K s l) as [s1|] eqn:E; [|discriminate].
+    pose proof (hang_step K s l s1 c Hd E). pose proof (step_deleted K s l s1 E Hd) as Hd1.
+    specialize (IH s1 s' c Hd1 H). cbn [count_own]. lia.
+Qed.
+
+Lemma sumf_le g n l : (forall x, g x <= n) -> sumf g l <= n * length l.
+Proof. intros Hg. induction l as [|x t IH]; cbn; [lia|]. specialize (Hg x). lia. Qed.
+
+(* ... and the bound is small: 11 for c itself plus 6 per pending notify_one
+   notification (the permit and the consumers woken by notify_one but not yet run). *)
+Lemma hang_bound_le s c : hang_bound s c <= 11 + 6 * (1 + length (conss s)).
+Proof.
+  unfold hang_bound, ntk, ownc.
+  assert (A : sumf isOne (conss s) <= 1 * length (conss s)).
+  { apply sumf_le. intros x. unfold isOne. destruct (cphase x) as [| | | |[]| |]; lia. }
+  assert (B : match get s c with Some cs => own (calls s) (cphase cs) | None => 6 end <= 11).
+  { destruct (get s c) as [cs|]; [|lia]. unfold own, stale.
+    destruct (cphase cs) as [| | | |[]| |]; cbn; try destruct (Nat.eqb _ _); lia. }
+  destruct (permit s); cbn [b2n]; lia.
+Qed.
+
+(* Progress: a consumer of a deleted subscription that has not finished can
+   take a step of its own, unless it waits for the actor, and then the actor
+   can take its last step (exit), which fails every pending and later Pull. *)
+Theorem C12_progress K s c cs :
+  reachable K s -> deleted s = true -> get s c = Some cs -> alive (cphase cs) = true ->
+  (exists s', step K s (LCons c) = Some s') \/
+  (exists s', step K s (LDelExit c) = Some s') \/
+  (exited s = false /\ exists s', step K s LExit = Some s').
+Proof.
+  intros R Hd G Al. pose proof (actor_wf K s R) as SW.
+  destruct (exited s) eqn:Ex.
+  - destruct (sw_exit K s SW Ex) as [_ Em]. cbn [step]. unfold cons_step, del_exit. rewrite G, Hd. cbn [negb].
+    destruct (cphase cs) as [o|sn o|sn [[[|k]|]|]|sn|n|o|] eqn:Ph; try discriminate; eauto.
+    + rewrite Ex. eauto.
+    + destruct (ckind cs); eauto.
+    + exfalso. destruct (sw_u2 K s SW c) as (m & I); [exists cs, sn; auto|]. rewrite Em in I. destruct I.
+    + destruct (poll_init (permit s) (calls s) sn); eauto.
+    + destruct (ckind cs); eauto.
+  - right. right. split; auto. cbn [step]. unfold actor_exit. rewrite Hd, Ex. cbn. eauto.
+Qed.
